@@ -140,12 +140,12 @@ var props = map[string]propCfg{
 		stream: func(c *corpus, r *rng, t string) *inputSet { return decoderStream(c, r, t) }},
 }
 
-// withSamples adds to base an evenly spread sample (quick: at most 6 000 inputs,
-// thorough: 60 000) of each extra stream, keeping the stream names.
+// withSamples adds to base an evenly spread sample (quick: at most 20 000 inputs,
+// thorough: 200 000) of each extra stream, keeping the stream names.
 func withSamples(base *inputSet, tier string, extras ...*inputSet) *inputSet {
-	max := 6000
+	max := 20000
 	if tier == "thorough" {
-		max = 60000
+		max = 200000
 	}
 	for _, e := range extras {
 		step := 1
